@@ -365,3 +365,4 @@ pub mod langkit;
 pub mod coop;
 pub mod factsworld;
 pub mod sessworld;
+pub mod policykit;
